@@ -516,7 +516,7 @@ def tfile_for(rng, spec, with_pos, allow_dup=True):
 
 def shard(ctx):
     install(ctx.R)
-    total = ctx.pick(9000, 300000)
+    total = ctx.pick(9000, 1500000)
     for i in ctx.indices(total):
         rng = ctx.rng('case', i)
         op = rng.choice(['punctuation_delete', 'punctuation_delete',
